@@ -69,8 +69,17 @@ def cases(tier):
             G(f"order2/{ik}/{kind}/{dim}", "order2", {"ikind": ik, "kind": kind, "dim": dim, "mkind": mkind})
     for ik, kind, dim in (RIEMANNIAN_ORIGIN_THOROUGH if th else RIEMANNIAN_ORIGIN_QUICK):
         G(f"order2_origin/{ik}/{kind}/{dim}", "order2", {"ikind": ik, "kind": kind, "dim": dim, "mkind": "diag", "origin": True})
-    # (constrained integrator: the Newton projection divides by the O(eps) Gram scalar J (|t| M^-1) J_prev^T, which needs
-    # Laurent series; prob_order2_constrained is kept in integlib but not registered - outside the claim)
+    # constrained integrator on a circle of symbolic radius (curved manifold) with the real Newton projection solvers: the Newton
+    # update divides the O(eps^2) constraint residual by the O(eps) Gram scalar J (|t| M^-1) J_prev^T - series division with a
+    # shift; the coefficients lost to the shift are fresh unknowns (symx.series), the integrator's internal reverse check is cut.
+    # (The quasi-Newton solver takes a Cholesky factor of that O(eps) scalar - a Puiseux series in sqrt(eps): outside.)
+    for solver in ("newton",) + (("line_search",) if th else ()):
+        for n_inner in ((1, 2) if th else (1,)):
+            G(f"constrained/{solver}/inner{n_inner}", "constrained", {"solver": solver, "n_inner": n_inner}, timeout_s=1500)
+    # non-identity metric and density with respect to the Lebesgue measure: the Gram log-determinant force takes part
+    for mkind, haus in (("scaled", False),) + ((("scaled", True), ("diag", False)) if th else ()):
+        G(f"constrained/newton/inner1/{mkind}/{'hausdorff' if haus else 'lebesgue'}", "constrained",
+          {"solver": "newton", "n_inner": 1, "mkind": mkind, "hausdorff": haus}, timeout_s=1500)
     for k in (1, 2, 3, 4):
         for h2 in (False, True):
             G(f"coefficients/{k}/{h2}", "coefficients", {"k": k, "h2first": h2}, timeout_s=300)
